@@ -84,6 +84,12 @@ func TestCertStoreLong(t *testing.T) {
 		w.getPT(i)
 	}
 	w.getRange(1430, 1450)
+	// long range reads (more than a thousand certificates in one call), complete and running past the end
+	if next > 1110 {
+		w.getRange(3, 3+1100)
+		w.getRange(0, next-1)
+		w.getRange(next-1030, next+5)
+	}
 	w.crash()
 	w.open("Open", variant{"open", 0, nil})
 	for _, i := range []uint64{1439, 1440, 1441, 2880, next - 1, next, next + 1} {
